@@ -3,7 +3,6 @@ package whitespace
 import (
 	"github.com/ajitpratap0/GoSQLX/pkg/sql/tokenizer"
 	"strings"
-	"unicode"
 
 	"github.com/ajitpratap0/GoSQLX/pkg/linter"
 	"github.com/ajitpratap0/GoSQLX/pkg/models"
@@ -83,10 +82,13 @@ func (r *TrailingWhitespaceRule) Check(ctx *linter.Context) ([]linter.Violation,
 			continue
 		}
 
-		lastChar := rune(line[len(line)-1])
-		if unicode.IsSpace(lastChar) && lastChar != '\n' && lastChar != '\r' {
+		// Blanks before the CR of a CR LF line end are trailing too. Only a
+		// space or tab counts (what the fix removes): the last byte of a
+		// multi-byte character is not a blank.
+		body := strings.TrimSuffix(line, "\r")
+		if strings.HasSuffix(body, " ") || strings.HasSuffix(body, "\t") {
 			// Find where trailing whitespace starts
-			trimmed := strings.TrimRight(line, " \t")
+			trimmed := strings.TrimRight(body, " \t")
 			column := len(trimmed) + 1
 
 			violations = append(violations, linter.Violation{
@@ -122,7 +124,11 @@ func (r *TrailingWhitespaceRule) Fix(content string, violations []linter.Violati
 	for i, line := range lines {
 		// blanks before a line break inside a string literal belong to the string
 		if !endsInsideLiteral(classes, offset, len(line)) {
-			lines[i] = strings.TrimRight(line, " \t")
+			if body := strings.TrimSuffix(line, "\r"); len(body) != len(line) {
+				lines[i] = strings.TrimRight(body, " \t") + "\r" // keep the CR LF line end
+			} else {
+				lines[i] = strings.TrimRight(line, " \t")
+			}
 		}
 		offset += len(line) + 1
 	}
